@@ -9,6 +9,7 @@ package main
 import (
 	"bytes"
 	"context"
+	"encoding/json"
 	"errors"
 	"fmt"
 	"io"
@@ -79,6 +80,8 @@ func (r *c13Reader) ReadAt(p []byte, off int64) (int, error) {
 		return 0, errors.New("connection reset")
 	}
 }
+
+var c13LastPanic string
 
 type c13Target struct {
 	name string
@@ -453,6 +456,79 @@ func TestVerifC13(t *testing.T) {
 				}, nil
 			}})
 	}
+	// the same cuts seen by a client: a server with this epoch and a second, intact epoch loaded; getTransaction for
+	// every signature and getBlock for every slot of this epoch through the JSON-RPC handler
+	l2 := vBuildAndLoad(t, c10spec(2, 1314), false, cache)
+	server := func(name string, set func(cfg *Config, p string)) c13Target {
+		return c13Target{name: "server/" + name, path: map[string]string{"sig-exists": l.paths.SignatureExists, "sig-to-cid": l.paths.SignatureToCid,
+			"slot-to-cid": l.paths.SlotToCid, "cid-to-offset-and-size": l.paths.CidToOffsetAndSize, "car": l.built.CarPath}[name],
+			disk: func(p string) (func() []string, error) {
+				cfg := *l.cfg
+				car := *l.cfg.Data.Car
+				cfg.Data.Car = &car
+				cfg.Indexes.Gsfa.URI = ""
+				set(&cfg, p)
+				ep, err := NewEpochFromConfig(&cfg, vCliCtx(), vSmallCache(t), nil)
+				if err != nil {
+					return nil, err
+				}
+				multi := NewMultiEpoch(&Options{EpochSearchConcurrency: 2})
+				multi.AddEpoch(ep.Epoch(), ep)
+				multi.AddEpoch(l2.epoch.Epoch(), l2.epoch)
+				h := newMultiEpochHandler(multi, nil)
+				return func() []string {
+					defer ep.Close()
+					var res []string
+					classify := func(body string, p any, wantSlot uint64) string {
+						if p != nil {
+							c13LastPanic = fmt.Sprint(p)
+							return "panic"
+						}
+						var resp struct {
+							Result map[string]any `json:"result"`
+							Error  map[string]any `json:"error"`
+						}
+						if json.Unmarshal([]byte(body), &resp) != nil {
+							return "error"
+						}
+						if resp.Error != nil {
+							code, _ := resp.Error["code"].(float64)
+							msg, _ := resp.Error["message"].(string)
+							if int(code) == CodeNotFound || strings.Contains(strings.ToLower(msg), "not found") {
+								return "notfound"
+							}
+							return "error"
+						}
+						if resp.Result == nil {
+							return "notfound"
+						}
+						if s, ok := resp.Result["slot"].(float64); ok && uint64(s) != wantSlot {
+							return "different"
+						}
+						return "same"
+					}
+					for _, bt := range l.built.Blocks {
+						_, body, p := vCall(h, fmt.Sprintf(`{"jsonrpc":"2.0","id":1,"method":"getBlock","params":[%d,{"encoding":"base64","maxSupportedTransactionVersion":0,"transactionDetails":"none","rewards":false}]}`, bt.Spec.Slot))
+						c := classify(body, p, bt.Spec.Slot)
+						if c == "same" {
+							// (the block response carries parentSlot, not slot)
+						}
+						res = append(res, c)
+						for _, tt := range bt.Txs {
+							_, body, p := vCall(h, fmt.Sprintf(`{"jsonrpc":"2.0","id":1,"method":"getTransaction","params":["%s",{"encoding":"base64","maxSupportedTransactionVersion":0}]}`, tt.Sig))
+							res = append(res, classify(body, p, bt.Spec.Slot))
+						}
+					}
+					return res
+				}, nil
+			}}
+	}
+	targets = append(targets,
+		server("sig-exists", func(cfg *Config, p string) { cfg.Indexes.SigExists.URI = URI(p) }),
+		server("sig-to-cid", func(cfg *Config, p string) { cfg.Indexes.SigToCid.URI = URI(p) }),
+		server("slot-to-cid", func(cfg *Config, p string) { cfg.Indexes.SlotToCid.URI = URI(p) }),
+		server("cid-to-offset-and-size", func(cfg *Config, p string) { cfg.Indexes.CidToOffsetAndSize.URI = URI(p) }),
+		server("car", func(cfg *Config, p string) { cfg.Data.Car.URI = URI(p) }))
 	scratch := t.TempDir()
 	onlyFile, onlyCut := os.Getenv("VERIF_C13_FILE"), os.Getenv("VERIF_C13_CUT")
 	for _, tg := range targets {
@@ -475,6 +551,24 @@ func TestVerifC13(t *testing.T) {
 		if tg.name == "car-remote" && len(cuts) > 70 && quick {
 			cuts = cuts[:70]
 		}
+		if strings.HasPrefix(tg.name, "server/") {
+			// each cut loads an epoch: boundaries, a seeded sample and the tail of the file
+			rng.Shuffle(len(cuts), func(i, j int) { cuts[i], cuts[j] = cuts[j], cuts[i] })
+			n := 60
+			if !quick {
+				n = 600
+			}
+			if tg.name == "server/sig-exists" {
+				// the bucket area lies behind the 655 KiB header: sample it
+				cuts = nil
+				for i := 0; i < n; i++ {
+					cuts = append(cuts, 655400+rng.Int63n(size-655400))
+				}
+			}
+			if len(cuts) > n {
+				cuts = cuts[:n]
+			}
+		}
 		if tg.name == "sig-exists" && len(cuts) > 120 && quick {
 			cuts = cuts[:120] // opening this format parses a 65 536-entry header (~30 ms)
 		}
@@ -495,6 +589,12 @@ func TestVerifC13(t *testing.T) {
 				}
 				if r != "same" && r != "error" && o.Example == "" {
 					o.Example = fmt.Sprintf("key #%d: %s", i, r)
+					if r == "panic" && c13LastPanic != "" {
+						o.Example += " " + c13LastPanic
+						if len(o.Example) > 300 {
+							o.Example = o.Example[:300]
+						}
+					}
 				}
 			}
 			out.Emit(o)
